@@ -6,7 +6,8 @@ evaluation (160-bit, because the model's exact-zero masks need exact sums) of th
 (Model/SecondOrder.v), whose real-number instance the theorems of Properties/C10.v are about.
 Property-level predicates on the implementation: F2_ab,kl + conj(F2_ba,lk) = generalized first-order
 filter function, an independent nested Gauss-Legendre/expm quadrature of the defining double integral,
-both code paths equal, finiteness.
+both code paths equal, finiteness, and the change of the time unit (every third pulse is written in a unit
+lam = 1e+-6, 1e+-9, 1e+-12: durations * lam, amplitudes and frequencies / lam; F2 must be lam^2 F2).
 
 History: up to /repo c3a36ea the segment integral lost all accuracy next to (not at) a resonance (exact-zero
 masks + cos(x)-1 cancellation; see docs/notes/C10.md).  A failure with that cause still gets the signature
@@ -14,11 +15,12 @@ masks + cos(x)-1 cancellation; see docs/notes/C10.md).  A failure with that caus
 with 0 < |d*dt| < 1e-4 and (ii) the implementation with the segment integral replaced by its exact value passes
 the same test -- but it is no longer a known finding: it would be a regression and is reported as a violation.
 
-Tolerance: 1e-6 of the largest entry of the frequency slice + 2e-7 of the a-priori bound (sum_g dt_g A_g)^2/2 of
-the entries (A_g = max_ak sum_ij |X^g_ak(i,j)|): the code replaces denominators with |x dt| <= 1e-8 by their limit
-and divides by denominators down to 1e-8/dt, so each entry of the segment integral carries an absolute error up
-to ~4.5e-8 dt^2 (theorem C10_soi_bound for the truncation part), which does not shrink when the slice is small
-by cancellation between segments.
+Tolerance: 1e-6 of the largest entry of the frequency slice + 2 x the error budget
+sum_g eps dt_g^2 A_g^2 (A_g = max_ak sum_ij |X^g_ak(i,j)|), eps = 2 [thr2 (1/2 + thr2/4) + 2u/thr2]: the code replaces
+denominators with |x dt| <= thr2 = 1e-8 by their limit (truncation, theorem C10_soi_bound / C10_F2_bound) and divides
+by denominators down to thr2/dt (amplification of the evaluation error u of the buffers by 2/thr2, theorems
+C10_case1_amplification / C10_case2_amplification; u = 4 ulp assumed).  This absolute error does not shrink when the
+slice is small by cancellation between segments.
 """
 import re
 import numpy as np
@@ -34,7 +36,8 @@ ID = 'C10'
 TRUSTED = ['numpy.linalg.eigh is an oracle: its output is validated per case in interval arithmetic '
            '(H V = V D, V^dagger V = 1, residual <= 1e-11*scale) and passed to the model',
            'floating-point rounding of the implementation is absorbed in the comparison tolerance (1e-6 of the largest '
-           'entry of the frequency slice + 2e-7 of the a-priori bound of the entries), not proved',
+           'entry of the frequency slice + 2 x the budget sum_g eps dt_g^2 A_g^2, eps from the proved truncation bound and the '
+           'proved amplification 2u/thr2 of an ASSUMED evaluation accuracy u = 4 ulp of sin/cos/divide), not proved',
            'classification of a failure as the known near-resonance cancellation uses a 90-digit decimal evaluation '
            'of the segment integral (harness code, tools/ffv/props/c10.py)']
 ASSUMPTIONS = ['piecewise-constant pulses with d<=3, <=3 segments, <=2 noise operators, Hermitian bases in the sampled '
@@ -42,7 +45,11 @@ ASSUMPTIONS = ['piecewise-constant pulses with d<=3, <=3 segments, <=2 noise ope
                'F2_plus_adjoint is exact only where no first-order segment integral is on its Taylor branch '
                '(hypothesis of the theorem); the sampled predicate uses 1e-6']
 REL_TOL = 1e-6
-NAT_TOL = 2e-7
+THR2 = 1e-8             # case-selection threshold of _second_order_integral (tie: thr_numeric__second_order_integral)
+U_EVAL = 4 * 2.0 ** -52  # assumed accuracy (in units of dt) of the evaluated buffers frc1, frc2, dt*exp(i x dt)
+# per-entry error budget of the segment integral in units of dt^2, both components:
+#   truncation thr2 (1/2 + thr2/4)  [C10_soi_bound]  +  amplification 2u/thr2  [C10_case1/2_amplification]
+ENTRY_EPS = 2 * (THR2 * (0.5 + THR2 / 4) + 2 * U_EVAL / THR2)
 KNOWN_SIG = 'c10-near-resonance-cancellation'
 SMALL = 1e-4            # window of the known finding: 0 < |d*dt| < SMALL for one of the three denominators
 
@@ -239,8 +246,9 @@ def quad_F2(p, om, n=20):
     return res
 
 
-def nat_scale(p):
-    """a-priori bound (sum_g dt_g A_g)^2/2 of |F2| entries, A_g = max_ak sum_ij |s_a (V^dag N_a V)_ij (W^dag C_k W)_ji|"""
+def budget(p):
+    """absolute error budget of an F2 entry: sum_g ENTRY_EPS dt_g^2 A_g^2 with
+    A_g = max_ak sum_ij |s_a (V^dag N_a V)_ij (W^dag C_k W)_ji| (C10_F2_bound with the amplification term added)"""
     basis = p.basis.view(np.ndarray)
     tot = 0.0
     for g, dt in enumerate(p.dt):
@@ -249,13 +257,13 @@ def nat_scale(p):
         BT = np.array([W.conj().T @ C @ W for C in basis])
         NT = np.array([p.n_coeffs[a, g] * (V.conj().T @ p.n_opers[a] @ V) for a in range(len(p.n_opers))])
         A = np.abs(np.einsum('aij,kji->akij', NT, BT)).sum(axis=(2, 3)).max() if len(NT) and len(BT) else 0.0
-        tot += dt * A
-    return tot * tot / 2
+        tot += ENTRY_EPS * dt * dt * A * A
+    return tot
 
 
 def tol_of(p, Fo):
-    """absolute tolerance for a frequency slice"""
-    return REL_TOL * max(np.abs(Fo).max(), 1e-300) + NAT_TOL * nat_scale(p)
+    """absolute tolerance for a frequency slice: 1e-6 of its largest entry + twice the proved/assumed error budget"""
+    return REL_TOL * max(np.abs(Fo).max(), 1e-300) + 2 * budget(p)
 
 
 def slice_err(A, Bq, o):
@@ -298,6 +306,15 @@ def ladder_pulse(r, G):
     return p, dict(d=3, G=G, nc=1, nn=1, amp='ladder', dt='generic', noise='generic', sens='constant', basis='ggm')
 
 
+LAMBDAS = [1e12, 1e-12, 1e9, 1e-9, 1e6, 1e-6]
+
+
+def scale_pulse(p, lam):
+    """the same physical pulse written in another unit of time: durations * lam, amplitudes / lam"""
+    return ff.PulseSequence(list(zip(p.c_opers, p.c_coeffs / lam, p.c_oper_identifiers)),
+                            list(zip(p.n_opers, p.n_coeffs, p.n_oper_identifiers)), p.dt * lam, basis=p.basis)
+
+
 def make_case(r, i, thorough):
     if i % 9 == 8:
         p, tags = ladder_pulse(r, int(r.integers(1, 3)))
@@ -307,6 +324,11 @@ def make_case(r, i, thorough):
         nn = int(r.integers(1, 3))
         dtc = str(r.choice(['generic', 'zero-length', 'wide'], p=[.7, .15, .15]))
         p, tags = gen.rand_pulse(r, d=d, G=G, nn=nn, dtc=dtc)
+    tags['lam'] = '1'
+    if i % 3 == 1:              # time-unit scaled: the frequencies below are generated in the scaled unit
+        lam = float(LAMBDAS[(i // 3) % len(LAMBDAS)])
+        p = scale_pulse(p, lam)
+        tags['lam'] = '%g' % lam
     p.diagonalize()
     ev = p.eigvals
     G, d = ev.shape
@@ -428,6 +450,17 @@ def run_cases(ctx, cases, failures, samples=None):
                 failures.append(dict(kind='prop', observable=obs, signature=KNOWN_SIG, detail=det + ' [%s] (regression of c3a36ea)' % ft[o], input=inp1))
             else:
                 failures.append(dict(kind='prop', observable=obs, signature='c10-' + obs, detail=det + ' [%s]' % ft[o], input=inp1))
+        # change of the time unit: F2(dt*lam, H/lam, w/lam) = lam^2 F2(dt, H, w) (theorem time_scaling_F2)
+        if tags.get('lam', '1') != '1' and np.isfinite(F2).all():
+            lam = float(tags['lam'])
+            F2u = impl_F2(scale_pulse(p, 1 / lam), om * lam, 'fresh') * lam ** 2
+            for o in range(len(om)):
+                e = np.abs(F2[..., o] - F2u[..., o]).max()
+                if not e <= 2 * tol_of(p, max(np.abs(F2[..., o]).max(), np.abs(F2u[..., o]).max())):
+                    failures.append(dict(kind='prop', observable='time-unit', signature='c10-time-unit',
+                                         detail='F2 in the time unit %s differs from lam^2 F2 in the natural unit: rel %.3g [%s]' % (
+                                             tags['lam'], e / max(np.abs(F2u[..., o]).max(), 1e-300), ft[o]),
+                                         input=dict(inp, omega=np.array([om[o]]), freq_class=ft[o])))
         # frequency shifts against the model's trapezoidal rule applied to the implementation's F2
         if np.isfinite(F2).all():
             rr = ctx.rng(1000 + ci)
@@ -456,7 +489,7 @@ def run_cases(ctx, cases, failures, samples=None):
         else:
             failures.append(dict(kind='prop', observable='finite', signature='c10-finite',
                                  detail='NaN or infinity in the second-order filter function', input=inp))
-        key = '%s/%s/%s/%s/d%d' % (tags['amp'], tags['dt'], tags['noise'], tags['basis'], p.d)
+        key = '%s/%s/%s/%s/d%d/lam%s' % (tags['amp'], tags['dt'], tags['noise'], tags['basis'], p.d, tags.get('lam', '1'))
         for f in ft:
             k2 = key + '/' + re.sub(r'[+-](?=\d)', '', f, count=1)
             if np.abs(F2).max() > 0:
@@ -527,6 +560,14 @@ def replay(ctx, rep):
     Fgen = gen.fresh(p).get_filter_function(om, which='generalized')
     Fq = quad_F2(p, om)
     msgs += ['%s at omega=%r: %s' % (obs, float(om[o]), det) for o, obs, det in predicates(p, om, F2, Fgen, Fq)]
+    lam = float((inp.get('tags') or {}).get('lam', '1'))
+    if lam != 1.0:
+        F2u = impl_F2(scale_pulse(p, 1 / lam), om * lam, 'fresh') * lam ** 2
+        for o in range(len(om)):
+            e = np.abs(F2[..., o] - F2u[..., o]).max()
+            if not e <= 2 * tol_of(p, max(np.abs(F2[..., o]).max(), np.abs(F2u[..., o]).max())):
+                msgs.append('F2 at omega=%r in the time unit %g differs from lam^2 F2 in the natural unit: rel %.3g' % (
+                    float(om[o]), lam, e / max(np.abs(F2u[..., o]).max(), 1e-300)))
     # high-precision reference of the whole filter function (exact segment integral in the package's own assembly)
     with exact_integral():
         F2x = impl_F2(p, om, 'fresh')
